@@ -17,7 +17,8 @@ RULE = ('Op sequences over a pool of frames (ops refer to frames by index modulo
         'write pixels through any writable image; starts writable or read-only GRAY/BGR/RGB of sizes 1x1 1x3 2x2 3x5 and jpg-backed. '
         'Exhaustive part: every history up to the stated length over {17 ops} x {original, most recent frame} from 9 starts. '
         'Non-trivial = the history contains a pixel write followed by an accessor on a frame that was accessed before the write. '
-        'Distinct = distinct op sequence (random part) / distinct (start, 2-op prefix) chunk (exhaustive part, conservative).')
+        'Distinct = distinct op sequence (random part) / distinct (start, 2-op prefix) chunk (exhaustive part, conservative).'
+        ' Start states also include from_jpg without / with partial dimensions.')
 ASSUMPTIONS = ['read-only starts are owning arrays with writeable=False (a read-only view of a writable base is the caller breaking the contract)',
                'cv2.cvtColor GRAY conversion is the reference luminance within +-1']
 BUDGET = {'quick': 45, 'thorough': 900}
